@@ -2,7 +2,7 @@
    correspondence evaluates against /repo), generic in the number type, and about its instance at
    Coq's real numbers with the real logarithm.  Proofs in Proofs/C13_CMAexec.v, Proofs/C13_WeightsR.v. *)
 From Coq Require Import List Reals Permutation.
-From DV Require Import Model.C13_CMAexec Proofs.C13_CMAexec Proofs.C13_WeightsR.
+From DV Require Import Model.C13_CMAexec Proofs.C13_CMAexec Proofs.C13_WeightsR Proofs.C13_SortR.
 Import ListNotations.
 
 (* generate returns exactly one individual per drawn row (lambda_ rows), each built by the given
@@ -37,6 +37,18 @@ Theorem C13_sort_pop_order_independent :
     sort_pop Nm pop1 = sort_pop Nm pop2.
 Proof. exact @sort_pop_order_independent. Qed.
 Print Assumptions C13_sort_pop_order_independent.
+
+(* at the real numbers CPython's tuple comparison is a strict total order, so the update of the
+   executable model is independent of the order of a population with pairwise distinct fitness
+   tuples -- no hypothesis on the comparison left *)
+Theorem C13_update_order_independent_R :
+  forall (eigh : list (list R) -> list R * list (list R)) (P : params) (st : state)
+         (pop1 pop2 : list (list R * list R)),
+    Permutation pop1 pop2 ->
+    (forall a b, In a pop1 -> In b pop1 -> fst a = fst b -> a = b) ->
+    update RNum eigh P st pop1 = update RNum eigh P st pop2.
+Proof. exact update_order_independent_R. Qed.
+Print Assumptions C13_update_order_independent_R.
 
 (* the weights computed by the executable computeParams at the real numbers, with the real ln:
    mu of them, positive, non-increasing, summing to one (any scheme, any mu >= 1) *)
